@@ -1,5 +1,6 @@
 import LabtechModel.Proofs.Submit
 import LabtechModel.Proofs.Plan
+import LabtechModel.Proofs.InvMain
 /-!
 # C05 — Runnable work is started whenever capacity is free
 
@@ -9,6 +10,15 @@ only when its type is at its limit (`not_ready_means_blocked`); the executor nev
 slot idle while a future is queued, after `submit` and after every `wait`
 (`no_idle_worker_after_submit`, `no_idle_worker_after_wait`); the serial runner executes a task in
 every `wait` in which something is submitted (`serial_wait_executes_head`).
+
+Whole runs (every problem, configuration, cache pre-state, fuel and schedule; no hypothesis; from
+the master invariant of `Proofs/InvLoop.lean`):
+* `submit_phase_exhausts_ready`: at every reachable loop head, after the submit phase
+  `get_ready_tasks` returns nothing: every still pending task has an unfinished dependency or its
+  type is at its `max_parallel` limit (`resting_point_blocked`), i.e. the coordinator only waits when
+  nothing more can be started;
+* `no_idle_worker_at_rest`: for process runners, at every resting point (after the submit phase of
+  every reachable loop head) no worker slot is idle while a future is queued.
 -/
 namespace Lt.Props.C05
 open Lt
@@ -112,5 +122,53 @@ def exP : Problem where
 def exCfg : Config := { backend := .fork, maxWorkers := 4, contOnFail := true, bust := false }
 
 example : readyTasks exP (plan exCfg exP [] 4) = [0, 1] ∧ 2 ∉ readyTasks exP (plan exCfg exP [] 4) := by decide
+
+/-! ## whole runs -/
+
+/-- at every reachable loop head the submit phase leaves nothing that `get_ready_tasks` would offer -/
+theorem submit_phase_exhausts_ready (cfg : Config) (p : Problem) (store : Store) (fuel : Nat) (sched : List Choice) :
+    let rs := runLoop cfg p (reqTids p) sched (initRS cfg p store fuel)
+    readyTasks p (submitAll cfg p (readyTasks p rs.ts) rs).ts = [] :=
+  loopHead_exhausts cfg p store fuel sched
+
+/-- at every resting point each pending task is blocked: by an unfinished direct dependency (a
+    planned dependency that has not been yielded) or by its type's `max_parallel` -/
+theorem resting_point_blocked (cfg : Config) (p : Problem) (store : Store) (fuel : Nat) (sched : List Choice) :
+    let rs := runLoop cfg p (reqTids p) sched (initRS cfg p store fuel)
+    let rs' := submitAll cfg p (readyTasks p rs.ts) rs
+    rs.status = .running → ∀ t ∈ rs'.ts.pending,
+      (∃ d ∈ (plan cfg p store fuel).ddeps t, d ∉ yielded rs') ∨
+      ∃ L, p.maxPar (p.ty t) = some L ∧ L ≤ typeCount p rs'.ts.active (p.ty t) := by
+  intro rs rs' hrun t ht
+  have hex : readyTasks p rs'.ts = [] := loopHead_exhausts cfg p store fuel sched
+  obtain ⟨hc, _, _⟩ := submitPhase_reach (plan_PI cfg p store fuel) (reach_all cfg p store fuel sched) hrun
+  have hnot : t ∉ readyAux p rs'.ts rs'.ts.pending (typeCount p rs'.ts.active) := by
+    have := hex; simp only [readyTasks] at this; rw [this]; simp
+  rcases not_ready_means_blocked p rs'.ts rs'.ts.pending _ t ht hnot with h | ⟨L, hL, hle⟩
+  · left
+    obtain ⟨d, hd⟩ := List.exists_mem_of_ne_nil _ h
+    exact ⟨d, (hc.ts.mem_pd t d).mp hd⟩
+  · right
+    refine ⟨L, hL, ?_⟩
+    have := hex; simp only [readyTasks] at this
+    rw [this] at hle
+    simpa [typeCount] using hle
+
+/-- process runners: at every resting point no worker slot is idle while a future is queued -/
+theorem no_idle_worker_at_rest (cfg : Config) (p : Problem) (store : Store) (fuel : Nat) (sched : List Choice)
+    (hb : cfg.backend ≠ .serial) :
+    let rs := runLoop cfg p (reqTids p) sched (initRS cfg p store fuel)
+    let rs' := submitAll cfg p (readyTasks p rs.ts) rs
+    rs'.queued = [] ∨ rs'.running.length = cfg.maxWorkers := by
+  have hl := loopHead_live cfg p store fuel sched
+  exact submitAll_noIdle cfg p hb _ _ hl.workers (hl.noIdle hb)
+
+/-- non-vacuity: diamond with `max_parallel = 1` for the even tids, two workers: at the second loop
+    head tasks 1 and 2 become ready together and both are started; nothing is left ready -/
+example :
+    let rs := runLoop invExCfg invExP (reqTids invExP) [chooseAll] (initRS invExCfg invExP [] 4)
+    rs.status = .running ∧ readyTasks invExP rs.ts = [1, 2] ∧
+    (submitAll invExCfg invExP (readyTasks invExP rs.ts) rs).ts.pending = [3] ∧
+    (submitAll invExCfg invExP (readyTasks invExP rs.ts) rs).running.map Job.tid = [1, 2] := by decide
 
 end Lt.Props.C05
